@@ -22,8 +22,13 @@ listed in `ASSUMED_HERE` (-> evidence `assumed_contracts` of C06, marked "verifi
 import z3
 
 from pyvc.contracts import FnContract, Raises
+from pyvc.values import VExt
+from pyvc.verify import p_ext
 
 ZB = "sharepoint2text/parsing/extractors/util/zip_bomb.py"
+ARC = "sharepoint2text/parsing/extractors/archive_extractor.py"
+USES = "c06!stream-used-at"
+ON_C11_ENGINE = {f"{ZB}::validate_zip_bytesio", f"{ZB}::open_zipfile", f"{ARC}::_detect_archive_type_optimized"}
 TARGET = f"{ZB}::validate_zip_bytesio"
 ASSUMED_HERE = [f"{ZB}::validate_zipfile (call-site view inside validate_zip_bytesio; verified by pack C11, not by C06)",
                 "zipfile.ZipFile(stream, 'r') / its context manager: moves the cursor of the stream anywhere, may raise anything, "
@@ -42,6 +47,8 @@ def contracts(reg):
             if t.endswith("::validate_zipfile") or t.endswith("::_is_directory"):
                 reg.add(c)                                   # call-site views (verified in pack C11)
 
+        _log_uses(reg, common)
+
         def restored(c):
             fl = c.args["file_like"]
             return common.bytesio_pos(c.st, fl) == common.bytesio_pos(c.entry, fl)
@@ -49,25 +56,79 @@ def contracts(reg):
         return [C11._guard_contract(FnContract(
             target=TARGET, params=list(base.params),
             requires=base.requires,      # materialises the ghost cursor (>= 0) at entry; configured total limit >= 0 (callee's precondition)
-            ensures=[("stream-position-restored", restored)],
+            ensures=[("stream-position-restored", restored), ("stream-consumed-from-offset-0", from0)],
             exc_ensures=[("stream-position-restored-on-raise", C11.G(restored))],
             raises=[Raises("Exception", sub=True, label="not a zip / rejected by the guard / library failure")],
             modifies=("file_like",),
             note="VERIFIED (round 7; was dataflow-only in C06): the caller's buffer has its cursor back on every exit, for every "
-                 "initial cursor; value model and executor of pack C11"))]
+                 "initial cursor, and the archive is opened with the cursor at 0; value model and executor of pack C11")),
+            C11._guard_contract(FnContract(
+                target=f"{ZB}::open_zipfile", params=list(theirs[f"{ZB}::open_zipfile"].params),
+                requires=theirs[f"{ZB}::open_zipfile"].requires,
+                ensures=[("stream-consumed-from-offset-0", from0)],
+                raises=[Raises("Exception", sub=True, label="not a zip / rejected by the guard / library failure")],
+                modifies=("file_like",),
+                note="VERIFIED (round 7; deductive complement of the dataflow obligation stream#read-starts-at-offset-0): whatever the "
+                     "cursor of the caller's buffer is, the archive is opened with the cursor at 0")),
+            C11._guard_contract(FnContract(
+                target=f"{ARC}::_detect_archive_type_optimized", params=[("file_like", p_ext("BytesIO"))],
+                requires=lambda c: common.bytesio_pos(c.st, c.args["file_like"]) >= 0,
+                ensures=[("stream-consumed-from-offset-0", from0),
+                         ("stream-left-at-offset-0", lambda c: common.bytesio_pos(c.st, c.args["file_like"]) == 0)],
+                raises=[Raises("Exception", sub=True, label="not excluded by this model: the header is an unknown value here")],
+                modifies=("file_like",),
+                note="VERIFIED (round 7): the sniffed header is read at offset 0 whatever the cursor was and the cursor is left at 0 (what "
+                     "the archive readers called next start from).  Nothing is claimed about totality or about the value returned: "
+                     "the bytes read are an unknown value in this model"))]
     except Exception:  # noqa -- a pack's contracts() never lets an exception escape
         return []
 
 
+def from0(c):
+    """Every consumption of the caller's buffer on this path (a read, handing it to zipfile.ZipFile) happened with the cursor at 0,
+    and there was at least one."""
+    fl = c.args["file_like"]
+    uses = [pos for (obj, pos) in c.st.ghost.get(USES, ()) if z3.eq(obj, fl.t)]
+    return z3.And([p == 0 for p in uses]) if uses else z3.BoolVal(False)
+
+
+def _log_uses(reg, common):
+    """Ghost log of the cursor at every consumption of a BytesIO (wrapped around the assumed models of pack C11 / contracts/common.py;
+    the models themselves are unchanged)."""
+    read0 = reg.method_models[("BytesIO", "read")]
+    new0 = reg.ext_models[("new", "zipfile.ZipFile")]
+    if getattr(read0, "c06_logged", False):
+        return
+
+    def note(st, obj):
+        st.ghost[USES] = st.ghost.get(USES, ()) + ((obj.t, common.bytesio_pos(st, obj)),)
+
+    def m_read(ex, st, obj, args, kwargs, node):
+        note(st, obj)
+        return read0(ex, st, obj, args, kwargs, node)
+
+    def new_zip(ex, st, args, kwargs, node):
+        if args and isinstance(args[0], VExt) and args[0].sort == "BytesIO":
+            note(st, args[0])
+        return new0(ex, st, args, kwargs, node)
+    m_read.c06_logged = True
+    reg.method_models[("BytesIO", "read")] = m_read
+    reg.ext_models[("new", "zipfile.ZipFile")] = new_zip
+
+
 def executor_for(default_cls):
-    """Executor factory: functions of zip_bomb.py run on C11's executor (its models need it), everything else on `default_cls`."""
+    """Executor factory: the functions of this file run on C11's executor (its models need it), everything else on `default_cls`.
+    The choice is made per contract through EXECUTOR_KW (`c06_engine="C11"`)."""
     def make(mod, reg, uni, **kw):
         cls = default_cls
         try:
-            if getattr(mod, "rel", "") == ZB:
+            if kw.pop("c06_engine", None) == "C11":
                 from contracts import C11
                 cls = C11.EXECUTOR
         except Exception:  # noqa
             cls = default_cls
         return cls(mod, reg, uni, **kw)
     return make
+
+
+EXECUTOR_KW = {t: {"c06_engine": "C11"} for t in ON_C11_ENGINE}
